@@ -48,12 +48,15 @@ func (q *compiledQuery) Compile(w *ecs.World, include, optional, exclude []Comp,
 		Exclude: excl,
 	}
 	noExclude := !exclusive && len(exclude) == 0
+	// Queries keep the filter they are built with. Filters handed out by pointer must therefore not be
+	// overwritten by a later compilation of the same generic filter: each compilation gets its own copy.
+	maskFilter := q.maskFilter
 
 	if targetType == nil {
 		if noExclude {
 			q.filter = q.maskFilter.Include
 		} else {
-			q.filter = &q.maskFilter
+			q.filter = &maskFilter
 		}
 		q.Relation = ecs.ID{}
 		q.HasRelation = false
@@ -78,13 +81,14 @@ func (q *compiledQuery) Compile(w *ecs.World, include, optional, exclude []Comp,
 
 		if hasTarget {
 			q.Target = target
-			q.relationFilter = ecs.NewRelationFilter(&q.maskFilter, target)
-			q.filter = &q.relationFilter
+			relationFilter := ecs.NewRelationFilter(&maskFilter, target)
+			q.relationFilter = relationFilter
+			q.filter = &relationFilter
 		} else {
 			if noExclude {
 				q.filter = q.maskFilter.Include
 			} else {
-				q.filter = &q.maskFilter
+				q.filter = &maskFilter
 			}
 		}
 	}
